@@ -40,7 +40,7 @@ def inject(rng, ch, node, kind, is_root, scn_hooks):
         else:
             return False
     elif kind == "expired":
-        node.expires = datetime.datetime(2029, 5, 5, tzinfo=datetime.timezone.utc)
+        node.expires = vcommon.expired_instant(rng)
     elif kind == "missing_links":
         rng.choice(node.steps)["links"] = []
     elif kind == "threshold_unmet":
@@ -152,6 +152,7 @@ def one_case(rng, res):
         ch, desc, hooks, failed = gen_case(rng, root)
         scn = scen.build(ch, root, rng)
         scn.params = vcommon.pick_params(rng, desc)
+        vcommon.pick_tz(rng, scn, desc)
         scn.meta["inspect_timeout"] = timeout_for(ch)
         scn.meta["persist_links"] = desc["persist_inspection_links"] = rng.random() < 0.5
         apply_hooks(scn, ch, hooks, rng)
